@@ -252,6 +252,8 @@ fn instances(tier: Tier) -> Vec<(InstRep, Vec<Vec<(u64, f64)>>)> {
         (vec![c_b.clone()], vec![rem(c_a.clone())]),
         (vec![], vec![rem(c_b.clone()), rem_empty(c_c.clone())]),
         (vec![c_c.clone(), c_a.clone()], vec![rem_empty(c_b.clone())]),
+        // a polynomial constraint whose only monomial is x1*x2 (x2 occurs nowhere else); the last pool state has x1 = 0
+        (vec![ConRep::new(12, LE_ZERO, Some(FnRep::Poly { terms: vec![(vec![1, 2], 1.0), (vec![], -1.0)] })).with_meta("p")], vec![rem(c_a.clone())]),
     ];
     con_cfgs.extend(base_cfgs);
     let mut out = vec![];
@@ -317,7 +319,7 @@ fn instances(tier: Tier) -> Vec<(InstRep, Vec<Vec<(u64, f64)>>)> {
                         // the single-state path lets the fixed value win, and so must SampleSet::get
                         // ... and its value for variable 2 (bound [-2, 3]) lies 5e-8 beyond the bound: inside the
                         // 1e-7 tolerance with which the single-state path accepts values
-                        let mut last = vec![(1, -2.0), (2, 3.0 + 5e-8)];
+                        let mut last = vec![(1, 0.0), (2, 3.0 + 5e-8)];
                         if prefixed {
                             last.push((8, 7.0));
                         }
